@@ -155,7 +155,13 @@ def cascade_array(ctx: Ctx):
             if t not in guards:
                 guards.append(t)
     want_prefix = ["self.dimension_type not in DT.SHIMMED_TYPES", "self.dimension_type == DT.DATETIME", "_id in self._subvar_aliases", "_id in self._raw_element_ids", "self._has_mr_insertion"]
-    ctx.ob("cascade.order", where, guards[:5], want_prefix, guards[:5] == want_prefix, "an alias is recognised FIRST (which makes re-translation of an already translated id the identity)")
+    # the wanted guards in this RELATIVE order (other guards may stand between them); all present in another order: violated
+    pos = [guards.index(w) if w in guards else None for w in want_prefix]
+    if None in pos:
+        verdict = None
+    else:
+        verdict = pos == sorted(pos)
+    ctx.ob("cascade.order", where, [g for g in guards if g in want_prefix], want_prefix, verdict, "an alias is recognised FIRST (which makes re-translation of an already translated id the identity)")
 
 
 def cascade_datetime(ctx: Ctx):
@@ -163,7 +169,8 @@ def cascade_datetime(ctx: Ctx):
     m = ctx.repo.lookup(ci, "translate_element_id")
     body = SUMMARIZER.summarize(m.node)
     where = f"{DIM}::_ElementIdShim.translate_element_id [datetime]"
-    values = {0: "2020-01", 1: "2020-02", 2: "2020-03"}
+    # element 3 is the MISSING element: its "value" in the response is the dict {"?": -1}
+    values = {0: "2020-01", 1: "2020-02", 2: "2020-03", 3: {"?": -1}}
 
     def atoms(e):
         if isinstance(e, ast.Attribute):
@@ -179,7 +186,11 @@ def cascade_datetime(ctx: Ctx):
         raise KeyError
 
     cases = []
+    HASHABLE = object()  # the reference names only the missing element: whatever it resolves to must be usable as a key
     for k, v in values.items():
+        if isinstance(v, dict):
+            cases += [(f"position id (int) of the missing element {k}", k, HASHABLE), (f"position id (str) of the missing element {k}", str(k), HASHABLE)]
+            continue
         cases += [(f"position id (int) of element {k}", k, v), (f"position id (str) of element {k}", str(k), v), (f"value of element {k}", v, v)]
     cases += [("stale value", "1999-01", "1999-01"), ("stale position", 42, 42), ("None", None, None)]
     bad = []
@@ -192,6 +203,10 @@ def cascade_datetime(ctx: Ctx):
         except DTop as t:
             ctx.undecided("cascade-datetime", where, "DECTAB: " + str(t), "")
             return
+        if want is HASHABLE:
+            if isinstance(got, (dict, list, set)):
+                bad.append(f"{label} ({val!r}) -> {got!r}: an unhashable 'id' (TypeError wherever ids are looked up); a reference that matches no valid element is ignored")
+            continue
         if got != want:
             bad.append(f"{label} ({val!r}) -> {got!r}, specified {want!r}")
     ctx.count("spelling cases (datetime)", len(cases))
